@@ -895,6 +895,14 @@ func TestVerifC11(t *testing.T) {
 				q.ctype, q.body = "application/json", 1
 			}
 			c11MuxProbe(out, allMux, "all-routes-spellings", q, &probeRan, rt.Pos)
+			// the same spelling against the REAL registration of the route
+			// (real handler: reaching it is judged from the status / a panic)
+			switch {
+			case strings.Contains(rt.Func, "/internal/home."):
+				c11MuxProbe(out, homeMux, "real-registration-spellings", q, nil, rt.Pos)
+			case !strings.Contains(rt.Pos, "_windows.go"):
+				c11MuxProbe(out, pkgMux, "real-registration-spellings", q, nil, rt.Pos)
+			}
 		}
 	}
 }
